@@ -79,7 +79,17 @@ BINOPS = {
     'min': lambda a, b: bi.min(a, b), 'max': lambda a, b: bi.max(a, b),
     'lt': lambda a, b: a < b, 'le': lambda a, b: a <= b, 'gt': lambda a, b: a > b,
     'ge': lambda a, b: a >= b, 'eq': lambda a, b: a == b, 'ne': lambda a, b: a != b,
+    'pow': lambda a, b: a ** b, 'lshift': lambda a, b: a << b, 'rshift': lambda a, b: a >> b,
+    'bitand': lambda a, b: a & b, 'bitor': lambda a, b: a | b, 'bitxor': lambda a, b: a ^ b,
 }
+NAMED = ['round', 'roundup', 'trunc', 'thresh', 'clip2', 'wrap2', 'fold2', 'excess', 'scaleneg', 'amclip',
+         'ring1', 'ring2', 'ring3', 'ring4', 'difsqr', 'sumsqr', 'sqrsum', 'sqrdif', 'absdif']
+for _n in NAMED:
+    BINOPS[_n] = (lambda f: lambda a, b: f(a, b))(getattr(bi, _n))          # bi.f(a, b): either side may be the pattern
+# the method spelling of the same operators (a is a pattern): p.pow(x), p.round(x), ...
+METHODS = {'pow': 'pow', 'lshift': 'lshift', 'rshift': 'rshift', 'bitand': 'bitand', 'bitor': 'bitor', 'bitxor': 'bitxor',
+           'min': 'min', 'max': 'max'}
+METHODS.update({n: n for n in NAMED})
 UNOPS = {'neg': lambda a: -a, 'abs': lambda a: abs(a)}
 
 
@@ -193,8 +203,10 @@ def build1(e):
         return UNOPS[e[1]](a)         # through AbstractObject's operator composition
     if k == 'Pbinop':
         a, b = B(e[2]), B(e[3])
+        if isinstance(a, ptt.Pattern) and e[1] in METHODS and len(json.dumps(e)) % 2:
+            return getattr(aob.AbstractObject, METHODS[e[1]])(a, b)      # method spelling (two sites, one meaning)
         if isinstance(a, ptt.Pattern) or isinstance(b, ptt.Pattern):
-            return BINOPS[e[1]](a, b)       # through AbstractObject's operator composition
+            return BINOPS[e[1]](a, b)       # through AbstractObject's operator composition / the scbuiltin decorator
         return ptt.Pbinop(_BIN[e[1]], a, b)
     if k == 'Pnarop':
         a, b, c = B(e[2]), B(e[3]), B(e[4])
@@ -232,7 +244,10 @@ _UN = {'neg': operator.neg, 'abs': operator.abs}
 _BIN = {'add': operator.add, 'sub': operator.sub, 'mul': operator.mul, 'div': operator.truediv,
         'floordiv': operator.floordiv, 'mod': bi.mod, 'min': bi.min, 'max': bi.max,
         'lt': operator.lt, 'le': operator.le, 'gt': operator.gt, 'ge': operator.ge,
-        'eq': operator.eq, 'ne': operator.ne}
+        'eq': operator.eq, 'ne': operator.ne, 'pow': operator.pow, 'lshift': operator.lshift, 'rshift': operator.rshift,
+        'bitand': operator.and_, 'bitor': operator.or_, 'bitxor': operator.xor}
+_BIN.update({n: getattr(bi, n) for n in ['round', 'roundup', 'trunc', 'thresh', 'clip2', 'wrap2', 'fold2', 'excess', 'scaleneg',
+                                          'amclip', 'ring1', 'ring2', 'ring3', 'ring4', 'difsqr', 'sumsqr', 'sqrsum', 'sqrdif', 'absdif']})
 
 
 class Timeout(Exception):
